@@ -36,3 +36,175 @@ def s_alloc(vc):
     # and the new next[idx] is larger, so the result is never handed out again.
     for j in range(4):
         vc.ensure(f"fresh[{j}]", Implies(idx == j, post[j] > r))
+
+
+# ---------------------------------------------------------------------------------------------
+# pairing: commands of a stream layer are translated onto the paired QUIC stream only
+from props.prelude import *
+
+AIOQUIC = ["/venv/lib/python3.12/site-packages/aioquic"]
+Q = "mitmproxy.proxy.layers.quic._raw_layers:QuicStreamLayer"
+ASSUMPTIONS = [
+    "aioquic.quic.connection.stream_is_client_initiated/stream_is_unidirectional are interpreted from their real source (not trusted)",
+    "child layers (Layer.handle_event of the stream's layer stack) are abstracted to a scripted list of commands",
+]
+
+
+def mk_raw(vc, cid, sid, cstate, sstate):
+    """RawQuicLayer with one registered stream layer (client stream id cid, server stream id sid or None)."""
+    qc = mk_client(vc, "qclient", transport_protocol="udp")
+    qs = mk_server(vc, "qserver", transport_protocol="udp", timestamp_start=2.0)
+    ctx = mk_context(vc, qc, qs)
+    sc = mk_client(vc, "sclient", state=cstate)
+    ss = mk_server(vc, "sserver", state=sstate, timestamp_start=None if sid is None else 2.0)
+    child = vc.new(Q, client=sc, server=ss, _client_stream_id=cid, _server_stream_id=sid, child_layer=None,
+                   context=mk_context(vc, sc, ss), debug=None, _paused=None, _paused_event_queue=None)
+    ids = [vc.sym_int(f"next{i}", lo=0) for i in range(4)]
+    for i in range(4):
+        vc.assume(ids[i] % 4 == i)
+    raw = vc.new(R, context=ctx, force_raw=True, next_stream_id=vc.list(ids), client_stream_ids=vc.dict([(cid, child)]),
+                 server_stream_ids=vc.dict([] if sid is None else [(sid, child)]), command_sources=vc.dict([]),
+                 connections=vc.dict([]), datagram_layer=None, debug=None, _paused=None, _paused_event_queue=None)
+    return raw, child, qc, qs, sc, ss, ids
+
+
+@scenario("event_to_child.send_data", functions=[R + ".event_to_child"], extra_inline_roots=AIOQUIC)
+def s_send(vc):
+    from mitmproxy.connection import ConnectionState as S
+    to_client = vc.case("to_client", [True, False])
+    cid = vc.sym_int("cid", lo=0)
+    sid = vc.sym_int("sid", lo=0)
+    cstate, sstate = conn_state(vc, "cstate"), conn_state(vc, "sstate")
+    raw, child, qc, qs, sc, ss, ids = mk_raw(vc, cid, sid, cstate, sstate)
+    data = vc.sym_bytes("data")
+    cmd = vc.new("mitmproxy.proxy.commands:SendData", connection=sc if to_client else ss, data=data, blocking=False)
+    vc.summary("mitmproxy.proxy.layer:Layer.handle_event", lambda v, self_, ev: v.gen([cmd]))
+    ev = vc.new("mitmproxy.proxy.events:DataReceived", connection=ss if to_client else sc, data=b"x")
+    out = vc.call(R + ".event_to_child", raw, child, ev)
+    vc.ensure("no_exception", out.ok)
+    if not out.ok:
+        return
+    st = cstate if to_client else sstate
+    can_write = flag_has(st, S.CAN_WRITE)
+    if vc.branch(can_write):
+        vc.ensure("one_quic_send", len(out.trace) == 1 and is_cmd(out.trace[0], "SendQuicStreamData"))
+        if len(out.trace) == 1:
+            c = out.trace[0]
+            vc.ensure("on_paired_connection", c.connection is (qc if to_client else qs))
+            vc.ensure("on_paired_stream", c.stream_id == (cid if to_client else sid))
+            vc.ensure("same_bytes", c.data == data)
+            vc.ensure("no_fin", vc.eq(c.end_stream, False))
+    else:
+        vc.ensure("nothing_after_close", len(out.trace) == 0)
+
+
+@scenario("event_to_child.open_connection", functions=[R + ".event_to_child", R + ".get_next_available_stream_id", Q + ".open_server_stream"], extra_inline_roots=AIOQUIC)
+def s_open(vc):
+    from mitmproxy.connection import ConnectionState as S
+    cid = vc.sym_int("cid", lo=0)
+    raw, child, qc, qs, sc, ss, ids = mk_raw(vc, cid, None, S.OPEN, S.CLOSED)
+    cmd = vc.new("mitmproxy.proxy.commands:OpenConnection", connection=ss, blocking=True)
+    calls = []
+
+    def child_events(v, self_, ev):
+        calls.append(ev)
+        return v.gen([cmd] if len(calls) == 1 else [])
+
+    vc.summary("mitmproxy.proxy.layer:Layer.handle_event", child_events)
+    ev = vc.new("mitmproxy.proxy.events:DataReceived", connection=sc, data=b"x")
+    out = vc.call(R + ".event_to_child", raw, child, ev)
+    vc.ensure("no_exception", out.ok)
+    if not out.ok:
+        return
+    sid = child._server_stream_id
+    vc.ensure("server_stream_opened", not isnone(sid))
+    if isnone(sid):
+        return
+    vc.ensure("same_directionality", Iff((sid // 2) % 2 == 1, (cid // 2) % 2 == 1))
+    vc.ensure("client_initiated_on_server_conn", sid % 2 == 0)
+    vc.ensure("fresh_id", Or(*[And(sid == ids[j], raw.next_stream_id[j] == ids[j] + 4) for j in range(4)]))
+    reg = raw.server_stream_ids
+    items = reg.items if vc.mode == "sym" else list(reg.items())
+    vc.ensure("registered_once", len(items) == 1 and items[0][1] is child and vc.eq(items[0][0], sid))
+    vc.ensure("completion_delivered_to_same_child", len(calls) == 2 and isa(calls[1], _cls("mitmproxy.proxy.events:OpenConnectionCompleted")) and calls[1].command is cmd and isnone(calls[1].reply))
+    vc.ensure("open_not_passed_upward", len(out.trace) == 0)
+
+
+def _cls(ref):
+    from pyvc.vc import resolve_ref
+    return resolve_ref(ref)[2]
+
+
+# =============================================================================================
+# T2: the real RawQuicLayer (force_raw) under all interleavings of stream events (bounded)
+
+def bounded(tier, seed):
+    import itertools
+    from mitmproxy.proxy.layers.quic import _raw_layers as RL, _events as QE, _commands as QC
+    from mitmproxy.proxy import events, commands
+    from mitmproxy.connection import ConnectionState
+    from props import sansio
+    from aioquic.quic.connection import stream_is_unidirectional, stream_is_client_initiated
+
+    b = Bounded()
+    depth = 4 if tier == "quick" else 6
+    b.rule = ("event sequences over {data/fin/reset} x {client streams 0 (bidi), 2 (uni), server streams 1 (bidi), 3 (uni)} fed to the real RawQuicLayer(force_raw=True); "
+              "checked: every SendQuicStreamData/Reset goes to the other connection on a stream of the same directionality, one peer stream per stream, allocated ids unique with correct bits; "
+              "distinct = sequence; non-trivial = at least two different streams")
+    b.bound = f"sequences of length <= {depth} over 12 symbols"
+    b.exhaustive = True
+    syms = [(sid, k) for sid in (0, 2, 1, 3) for k in ("d", "f", "r")]
+    for n in range(1, depth + 1):
+        for seq in itertools.product(syms, repeat=n):
+            ctx = sansio.context_for()
+            ctx.client.transport_protocol = "udp"
+            ctx.server.address = ("example.com", 443)
+            ctx.server.transport_protocol = "udp"
+            raw = RL.RawQuicLayer(ctx, force_raw=True)
+            d = sansio.Driver(raw)
+            d.start()
+            pair = {}  # (side, stream id) -> (other side, stream id)
+            inp = {"seq": [list(s) for s in seq]}
+            ok = True
+            finished = set()
+            payload_no = 0
+            for sid, k in seq:
+                from_client = stream_is_client_initiated(sid)
+                conn = ctx.client if from_client else ctx.server
+                if (from_client, sid) in finished:
+                    continue
+                mark = len(d.log)
+                payload_no += 1
+                data = bytes([payload_no])
+                if k == "d":
+                    d.feed(QE.QuicStreamDataReceived(conn, sid, data, False))
+                elif k == "f":
+                    d.feed(QE.QuicStreamDataReceived(conn, sid, data, True))
+                    finished.add((from_client, sid))
+                else:
+                    d.feed(QE.QuicStreamReset(conn, sid, 7))
+                    finished.add((from_client, sid))
+                other = ctx.server if from_client else ctx.client
+                for c in d.log[mark:]:
+                    if isinstance(c, (QC.SendQuicStreamData, QC.ResetQuicStream)):
+                        if stream_is_unidirectional(c.stream_id) != stream_is_unidirectional(sid):
+                            b.fail("quic.same_directionality", inp, f"{c!r} for event on {sid}")
+                        if isinstance(c, QC.SendQuicStreamData) and c.data and c.connection is not other:
+                            b.fail("quic.data_only_to_peer", inp, f"{c!r}")
+                        if c.connection is other:
+                            key = (from_client, sid)
+                            if key in pair and pair[key] != c.stream_id:
+                                b.fail("quic.one_peer_stream", inp, f"stream {sid} mapped to {pair[key]} and {c.stream_id}")
+                            pair.setdefault(key, c.stream_id)
+                            if stream_is_client_initiated(c.stream_id) != from_client:
+                                b.fail("quic.initiator_bit", inp, f"{c!r}")
+                        if isinstance(c, QC.SendQuicStreamData) and c.connection is other and c.data and c.data != data:
+                            b.fail("quic.exact_bytes", inp, f"{c!r} expected {data!r}")
+            vals = list(pair.values())
+            keys = list(pair.keys())
+            for i in range(len(keys)):
+                for j in range(i + 1, len(keys)):
+                    if keys[i][0] == keys[j][0] and vals[i] == vals[j]:
+                        b.fail("quic.unique_ids", inp, f"{pair}")
+            b.case(seq, nontrivial=len({s for s, _ in seq}) > 1)
+    return b
